@@ -83,6 +83,7 @@ def stateful_diff(c, ops_file, impl_file, model_file, hbin, exe):
             c.problems.append(Problem("property" if isprop else "correspondence",
                                       "property oracle fails on the implementation" if isprop else "model and implementation disagree",
                                       shrunk, det))
+            c.cov.setdefault("shrunk_cases", []).append({"signature": sig, "case": shrunk, "detail": det})
 
 
 def failing_line(c, case_ops, hbin, exe, sig):
